@@ -82,13 +82,28 @@ impl ExtensionsMap {
     ) -> Result<Self, ParserError> {
         let mut result = ExtensionsMap::default();
 
+        let mut seen_unicode = false;
+        let mut seen_transform = false;
+
         let mut st = iter.next();
         while let Some(subtag) = st {
+            // An extension is introduced by a singleton: exactly one byte.
+            if subtag.len() > 1 {
+                return Err(ParserError::InvalidSubtag);
+            }
             match subtag.first().map(|b| ExtensionType::from_byte(*b)) {
                 Some(Ok(ExtensionType::Unicode)) => {
+                    if seen_unicode {
+                        return Err(ParserError::InvalidExtension);
+                    }
+                    seen_unicode = true;
                     result.unicode = UnicodeExtensionList::try_from_iter(iter)?;
                 }
                 Some(Ok(ExtensionType::Transform)) => {
+                    if seen_transform {
+                        return Err(ParserError::InvalidExtension);
+                    }
+                    seen_transform = true;
                     result.transform = TransformExtensionList::try_from_iter(iter)?;
                 }
                 Some(Ok(ExtensionType::Private)) => {
